@@ -175,6 +175,22 @@ def rule_M8b(ctx):
                 npairs += 1
                 ncalls += sum(s1.values())
                 extra1, extra2 = s1 - s2, s2 - s1
+                # the argument names are compared only where they are exact on both sides; a call whose names differ only
+                # because one sibling routes its arguments through locals still counts as the same normalisation
+                import collections as _c
+                n1 = _c.Counter(k_[0] for k_ in extra1.elements())
+                n2 = _c.Counter(k_[0] for k_ in extra2.elements())
+                for nm_ in set(n1) & set(n2):
+                    m_ = min(n1[nm_], n2[nm_])
+                    for ex_ in (extra1, extra2):
+                        left = m_
+                        for k_ in list(ex_):
+                            if k_[0] == nm_ and left > 0:
+                                take = min(ex_[k_], left)
+                                ex_[k_] -= take
+                                left -= take
+                                if ex_[k_] <= 0:
+                                    del ex_[k_]
                 for key in list(extra1) + list(extra2):
                     if (nm, key[0]) in M8B_AUDITED:
                         extra1.pop(key, None)
